@@ -631,7 +631,7 @@ def judge_served(box: fsbox.Box, acc: fsbox.Access, tag: str,
     if acc.res.links:
         return 'escape', Violation(
             'chroot-escape', detail + ' -- a link stored inside the root now '
-            'resolves outside it', tag + ':stale-symlink-containment')
+            'resolves outside it', 'chroot:stale-symlink-containment')
 
     raw = acc.raw if isinstance(acc.raw, (bytes, str)) else b''
 
@@ -641,7 +641,7 @@ def judge_served(box: fsbox.Box, acc: fsbox.Access, tag: str,
         return 'escape', Violation(
             'chroot-escape', detail + ' -- request path with two leading '
             'slashes was mapped to a path outside the root',
-            tag + ':double-slash-path')
+            'chroot:double-slash-path')
 
     if acc.cls == 'stat':
         return 'probe', Violation('chroot-probe', detail,
@@ -703,9 +703,9 @@ class ServedOracle:
                         'chroot-escape', 'link %s -> %s was created pointing '
                         'to %s' % (box.show(p), box.show(os.readlink(p)),
                                    box.show(res.path)),
-                        self.tag + (':double-slash-path' if dslash else
-                                    ':symlink-created-outward' +
-                                    unnormalised_linkpath(linkpath))))
+                        'chroot:double-slash-path' if dslash else
+                        self.tag + ':symlink-created-outward' +
+                        unnormalised_linkpath(linkpath)))
 
         return bool(self.escapes)
 
@@ -947,6 +947,19 @@ def chroot_strategy(tier: str):
             ops.extend(draw(rearrange_scenario()))
             ops.extend(draw(st.lists(random_op(), max_size=2)))
 
+        if not draw(st.sampled_from([True] + [False] * 7)):
+            # paths with exactly two leading slashes leave the root at once
+            # (known finding): keep them to one case in eight so that the
+            # other cases run to their end
+            def fix(a):
+                if isinstance(a, bytes) and double_slash([a]):
+                    return b'/' + a
+                if isinstance(a, list):
+                    return [fix(x) for x in a]
+                return a
+
+            ops = [[fix(a) for a in op] for op in ops]
+
         return {'v': draw(st.sampled_from([3, 3, 4, 5, 6])),
                 'driver': draw(st.sampled_from(['raw', 'raw', 'api'])),
                 'ops': ops}
@@ -1116,7 +1129,7 @@ def scp_records(max_len: int, names):
 
     crec = st.tuples(st.just('C'), mode, size, name, st.integers(0, 12)) \
         .map(lambda t: ['C', t[1], t[2], t[3],
-                        t[2] if t[4] < 9 else t[4]])
+                        t[2] if t[4] < 11 else t[4] - 6])
     drec = st.tuples(st.just('D'), mode, name).map(list)
     rec = st.one_of(
         crec, crec, crec, drec, drec, st.just(['E']),
@@ -1632,7 +1645,7 @@ def scp_sink_strategy(tier: str):
 
 FAMILIES = [
     Family('chroot', run_chroot, strategy=chroot_strategy,
-           budget={'quick': 640, 'thorough': 12000},
+           budget={'quick': 640, 'thorough': 24000},
            required={'all': ['op:' + k for k in OP_KINDS] +
                      ['path:dotdot', 'path:abs', 'path:empty-comp',
                       'path:nonutf8', 'path:long', 'path:sentinel',
@@ -1640,12 +1653,12 @@ FAMILIES = [
                       'ok:rename', 'ok:symlink', 'ok:mkdir', 'ok:open',
                       'v3', 'v4', 'v5', 'v6', 'raw', 'api']}),
     Family('scp-chroot', run_scp_chroot, strategy=scp_chroot_strategy,
-           budget={'quick': 200, 'thorough': 4000},
+           budget={'quick': 200, 'thorough': 6000},
            required={'all': ['upload', 'download', 'accepted', 'refused',
                              'served', 'name:dotdot', 'name:abs',
                              'path:dotdot', 'rec:C', 'rec:D', 'rec:E']}),
     Family('sftp-get', run_sftp_get, strategy=sftp_get_strategy,
-           budget={'quick': 400, 'thorough': 8000},
+           budget={'quick': 400, 'thorough': 12000},
            required={'all': ['get', 'mget', 'name:dotdot', 'name:abs',
                              'name:empty-comp', 'name:abs-into-box',
                              'dup-name', 'symlink-then-dir',
@@ -1653,7 +1666,7 @@ FAMILIES = [
                              'follow', 'wrote-something', 'completed',
                              'v3', 'v4', 'v5', 'v6']}),
     Family('scp-sink', run_scp_sink, strategy=scp_sink_strategy,
-           budget={'quick': 400, 'thorough': 8000},
+           budget={'quick': 400, 'thorough': 12000},
            required={'all': ['rec:C', 'rec:D', 'rec:E', 'rec:T',
                              'name:dotdot', 'name:abs', 'name:empty-comp',
                              'mismatched-E', 'accepted', 'refused',
